@@ -106,6 +106,7 @@ def cases(draw):
                      draw(rng_or_const(0.5, 3))],
             "yaw": draw(st.one_of(st.none(), rng_or_const(-3, 3))),
             "pitchroll": (not mode2D) and draw(st.integers(0, 4)) == 0,
+            "ptilt": (not mode2D) and draw(st.integers(0, 5)) == 0,
             "offset": None,
             "container": draw(st.one_of(st.none(), st.none(), region_spec(allow3d, False))),
             "vis": draw(st.sampled_from([None, None, None, "requireVisible", "visible"])),
@@ -156,7 +157,11 @@ def rh_cases(draw):
         form = draw(st.integers(0, len(REQ_FORMS) - 1))
         r = {"form": form, "a": a, "b": a + _num(draw, 0.25, 3), "c": _num(draw, 0, 3),
              "k": _num(draw, -2, 2), "soft": draw(st.sampled_from([None, None, None, 0.5])),
-             "deg": draw(st.booleans())}
+             "deg": draw(st.booleans()),
+             # only `require` constrains scene generation: the same condition in a
+             # `terminate when` / `record` statement must not influence pruning
+             "stmt": draw(st.sampled_from(["require", "require", "require", "terminate",
+                                           "record"]))}
         if draw(st.booleans()):
             # targeted constants: the requirement admits (about) exactly the relative heading
             # d of one ordered pair of cells, so that any slip in the extracted bounds matters
@@ -239,7 +244,13 @@ def emit_rh(c):
         soft = f"[{r['soft']}]" if r["soft"] else ""
         if soft and txt.startswith("("):
             txt = "True and " + txt
-        L.append(f"require{soft} {txt}")
+        stmt = r.get("stmt", "require")
+        if stmt == "terminate":
+            L.append(f"terminate when {txt}")
+        elif stmt == "record":
+            L.append(f"record {txt} as rec{len(L)}")
+        else:
+            L.append(f"require{soft} {txt}")
     if c["dist"] is not None:
         d = c["dist"]
         L.append(["require (distance to other) <= {d}", "require {d} >= (distance to other)",
@@ -274,6 +285,9 @@ def emit(c):
             specs.append(f"facing {val_src(o['yaw'])}")
         if o["pitchroll"]:
             specs += ["with pitch Range(0, 0.6)", "with roll Range(-0.4, 0.4)"]
+        if o.get("ptilt"):
+            # own pitch/roll stay 0, but they are relative to a tilted parent orientation
+            specs += ["with parentOrientation (0.3, 0.2, 90 deg)"]
         if o["offset"] is not None and o["place"] != "atoff":
             ox, oy, oz = o["offset"]
             specs.append(f"with baseOffset ({val_src(ox)}, {val_src(oy)}, {val_src(oz)})")
@@ -406,7 +420,9 @@ def cell_of(c, i):
         if c["other"]["vis"]:
             parts.append(c["other"]["vis"])
         parts.append("dist" if c["dist"] is not None else "nodist")
-        parts += sorted({"form%d" % r["form"] + ("soft" if r["soft"] else "") for r in c["reqs"]})
+        parts += sorted({"form%d" % r["form"] + ("soft" if r["soft"] else "")
+                         + ("" if r.get("stmt", "require") == "require" else ":" + r["stmt"])
+                         for r in c["reqs"]})
         if any(abs(cell["h"]) > 2.8 for cell in c["cells"]):
             parts.append("near-pi")
         return ":".join(parts)
@@ -420,6 +436,8 @@ def cell_of(c, i):
         parts.append("offset")
     if o["pitchroll"]:
         parts.append("pitchroll")
+    if o.get("ptilt"):
+        parts.append("tilted-parent")
     if o["vis"]:
         parts.append(o["vis"])
     if c["ego"].get("z"):
